@@ -84,6 +84,10 @@ type C struct {
 	cl         *smtp.Client
 	rcpts      []string
 	lmtp       bool
+
+	// dataAborted is set when the network connection was closed in the
+	// middle of the message data, see abortData.
+	dataAborted bool
 }
 
 // New creates the new instance of the C object, populating the required fields
@@ -463,6 +467,16 @@ func (c *C) smtpToLMTPData(ctx context.Context, hdr textproto.Header, body io.Re
 	return nil
 }
 
+// abortData closes the network connection in the middle of the message data.
+//
+// Nothing can be sent through the SMTP client afterwards: the underlying text
+// writer would first terminate the data with <CRLF>.<CRLF> (this is what QUIT
+// sent by Close would do) and the server would accept a truncated message.
+func (c *C) abortData() {
+	c.dataAborted = true
+	c.cl.Close()
+}
+
 // Data sends the DATA command to the remote server and then sends the message header
 // and body.
 //
@@ -481,10 +495,12 @@ func (c *C) Data(ctx context.Context, hdr textproto.Header, body io.Reader) erro
 	}
 
 	if err := textproto.WriteHeader(wc, hdr); err != nil {
+		c.abortData()
 		return c.wrapClientErr(err, c.serverName)
 	}
 
 	if _, err := io.Copy(wc, body); err != nil {
+		c.abortData()
 		return c.wrapClientErr(err, c.serverName)
 	}
 
@@ -504,10 +520,12 @@ func (c *C) LMTPData(ctx context.Context, hdr textproto.Header, body io.Reader, 
 	}
 
 	if err := textproto.WriteHeader(wc, hdr); err != nil {
+		c.abortData()
 		return c.wrapClientErr(err, c.serverName)
 	}
 
 	if _, err := io.Copy(wc, body); err != nil {
+		c.abortData()
 		return c.wrapClientErr(err, c.serverName)
 	}
 
@@ -529,6 +547,13 @@ func (c *C) Noop() error {
 // Close sends the QUIT command, if it fails - it directly closes the
 // connection.
 func (c *C) Close() error {
+	if c.dataAborted {
+		// Already closed by abortData, QUIT must not be attempted.
+		c.cl = nil
+		c.serverName = ""
+		return nil
+	}
+
 	c.cl.CommandTimeout = 5 * time.Second
 
 	if err := c.cl.Quit(); err != nil {
